@@ -152,15 +152,19 @@ def skcMove2 (P : GrothPub) (pi : List Nat) (m : List Int) (x : Int) : M SkcCtx 
   send cd; send cDelta; send ca
   pure ⟨x, rd, rDelta, d, Delta, ra, la, cd, cDelta, ca⟩
 
-/-- the responses `f_i`, `z`, `f_{Δ_i}`, `z_Δ` -/
+/-- `f_i = e m_{π(i)} + d_i` -/
+def skcRespF (q : Int) (pi : List Nat) (m : List Int) (c : SkcCtx) (e : Int) : List Int :=
+  (List.range m.length).map fun i => (e * (pi.map fun j => m.getD j 0).getD i 0 % q + c.d.getD i 0) % q
+
+/-- `f_{Δ_i} = e (Δ_{i+1} - (m_{π(i+1)} - x) Δ_i - a_i d_{i+1}) - Δ_i d_{i+1}` -/
+def skcRespFD (q : Int) (n : Nat) (c : SkcCtx) (e : Int) : List Int :=
+  (List.range (n - 1)).map fun i =>
+    (c.la.getD i 0 * e % q - c.Delta.getD i 0 * c.d.getD (i + 1) 0 % q) % q
+
+/-- the responses `f_1 … f_n`, `z = e r + r_d`, `f_{Δ_1} … f_{Δ_{n-1}}`, `z_Δ = e r_a + r_Δ` -/
 def skcResp (q : Int) (pi : List Nat) (r : Int) (m : List Int) (c : SkcCtx) (e : Int) : List Int :=
-  let n := m.length
-  let mp := pi.map fun j => m.getD j 0
-  ((List.range n).map fun i => (e * mp.getD i 0 % q + c.d.getD i 0) % q) ++
-  [(e * r % q + c.rd) % q] ++
-  ((List.range (n - 1)).map fun i =>
-    (c.la.getD i 0 * e % q - c.Delta.getD i 0 * c.d.getD (i + 1) 0 % q) % q) ++
-  [(e * c.ra % q + c.rDelta) % q]
+  skcRespF q pi m c e ++ [(e * r % q + c.rd) % q] ++ skcRespFD q m.length c e ++
+    [(e * c.ra % q + c.rDelta) % q]
 
 /-- `GrothSKC::Prove_*` -/
 def skcProve (mode : Mode) (P : GrothPub) (pi : List Nat) (r : Int) (m : List Int) : M Unit := do
